@@ -774,6 +774,15 @@ func (it *Interp) execRange(x *ast.RangeStmt, env *Env) ctrl {
 			it.retVals = bodyRet
 		}
 		return result
+	case string:
+		for i, r := range c {
+			switch body(int64(i), int64(r)) {
+			case cBreak:
+				return cNone
+			case cReturn:
+				return cReturn
+			}
+		}
 	case *MapV:
 		it.fail(x, "range over a map: iteration order is not deterministic")
 	default:
